@@ -405,6 +405,12 @@ class Process(object):
         uid    = getattr(own, '_uid', None)
         if isinstance(uid, str):
             label = '%s.%s' % (uid, label)
+        ff = sim.data.get('fork_fault')
+        if ff and ff(label):
+            # fork() fails: EAGAIN (process limit) - a legal outcome
+            sim.fault('fork_fail')
+            sim.log('fork_fail', label=label)
+            raise OSError(11, 'Resource temporarily unavailable')
         proc = sim.new_process(label, parent=sim.cur_proc())
         # copy the interpreter context of the parent
         proc.ctx = dict(sim.cur_proc().ctx)
